@@ -179,6 +179,34 @@ def collect_index_terms(formulas, limit=60):
     return out[:limit]
 
 
+def collect_offsets(formulas, limit=6):
+    """integer constants registered as positions/counts (ghost k, Skolem positions) plus 1"""
+    out = [z3.IntVal(1)]
+    seen = set()
+    visited = set()
+
+    def walk(t):
+        if t.get_id() in visited:
+            return
+        visited.add(t.get_id())
+        if z3.is_app(t):
+            d = t.decl()
+            if d.kind() == z3.Z3_OP_UNINTERPRETED and t.num_args() == 0 and d.name() in REG.index_consts \
+                    and d.name().startswith("g_"):
+                if t.get_id() not in seen:
+                    seen.add(t.get_id())
+                    out.append(t)
+            for c in t.children():
+                walk(c)
+    for f in formulas:
+        walk(f)
+    return out[:limit]
+
+
+def reset_names():
+    _fresh_ctr[0] = 0
+
+
 def _has_bound_var(t):
     return False  # we never build z3 quantifiers
 
@@ -200,6 +228,20 @@ def _mk_solver(timeout_ms):
     s = z3.SolverFor("QF_AUFLIRA") if False else z3.Solver()
     s.set("timeout", int(timeout_ms))
     return s
+
+
+def bound_terms(foralls, limit=30):
+    """the guard bounds of the quantified clauses belong to the index set (Bradley-Manna-Sipma)"""
+    out = [z3.IntVal(0)]
+    seen = {out[0].get_id()}
+    for fa in foralls:
+        for b in fa.bounds:
+            for t in (b, b - 1):
+                t = z3.simplify(t)
+                if t.get_id() not in seen and not z3.is_int_value(t):
+                    seen.add(t.get_id())
+                    out.append(t)
+    return out[:limit]
 
 
 def _instantiate(foralls, terms, done, cap=6000):
@@ -311,6 +353,33 @@ def solve(hyps, goal_negated, timeout_ms=10000, want_model=True, len_terms=(), m
         if r == z3.unsat:
             return Result("proved", seconds=time.time() - t0, ninst=len(insts), reason="index-set instantiation")
         stage1 = "sat-after-instantiation" if r == z3.sat else "unknown:" + s1.reason_unknown()
+        # 1c. list views shift indices (pop/insert by 1, slices and concatenations by a length or a ghost count):
+        #     close the index set under those offsets and try once more
+        offs = collect_offsets(base)
+        terms = collect_index_terms(base + insts, limit=40)
+        tids = set(t.get_id() for t in terms)
+        terms = terms + [t for t in bound_terms(fas) if t.get_id() not in tids]
+        ext = list(terms)
+        seen = set(t.get_id() for t in ext)
+        for t in terms:
+            for o in offs:
+                for cand in (t - o, t + o):
+                    cand = z3.simplify(cand)
+                    if cand.get_id() not in seen:
+                        seen.add(cand.get_id())
+                        ext.append(cand)
+        new = _instantiate([fa for fa in fas if fa.n == 1], ext[:400], done, cap=20000)
+        if new:
+            insts.extend(new)
+            s1 = _mk_solver(timeout_ms)
+            for f in base:
+                s1.add(f)
+            for f in insts:
+                s1.add(f)
+            r = s1.check()
+            if r == z3.unsat:
+                return Result("proved", seconds=time.time() - t0, ninst=len(insts),
+                              reason="index-set instantiation closed under view offsets")
         if not want_model:
             return Result("unknown", seconds=time.time() - t0, reason=stage1)
     else:
@@ -320,6 +389,15 @@ def solve(hyps, goal_negated, timeout_ms=10000, want_model=True, len_terms=(), m
             if not new:
                 break
             insts.extend(new)
+        s1 = _mk_solver(timeout_ms)
+        for f in base:
+            s1.add(f)
+        for f in insts:
+            s1.add(f)
+        r = s1.check()
+        if r == z3.unsat:
+            return Result("proved", seconds=time.time() - t0, ninst=len(insts))
+        stage1 = "sat-after-instantiation" if r == z3.sat else "unknown"
     for bound in (2, 4, 8):
         s2 = _mk_solver(timeout_ms)
         for f in base:
